@@ -1,9 +1,9 @@
-import TracklibVerif.Lemmas.GridReturns
+import TracklibVerif.Lemmas.GridNetwork
 import Mathlib.Data.Rat.Floor
 /-! # C08 — the grid spatial index never omits a feature that is geometrically there
 
 Property theorems only (helper lemmas: `Lemmas/Grid.lean` (ordered-field geometry), `Lemmas/GridCells.lean`,
-`GridIndex.lean`, `GridBuild.lean`, `GridQuery.lean`, `GridMain.lean`, `GridReturns.lean`). The model is
+`GridIndex.lean`, `GridBuild.lean`, `GridQuery.lean`, `GridMain.lean`, `GridReturns.lean`, `GridNetwork.lean`). The model is
 `Model/Grid.lean` (`core/spatial_index.py` after ad7c5ee, 9a44198, the degenerate-extent repair and the upper-border
 repair, `cartesienne`/`isSegmentIntersects` of `util/geometry.py`).
 
@@ -18,7 +18,10 @@ the extent (`extent_point_cell`). The legitimate configurations are `margin ≥ 
 positive explicit cell size; on them the constructor and every query of a point / segment / track inside the closed
 extent return (`constructor_returns`, `point_query_complete`, `segment_query_returns`, `track_query_returns`,
 `neighborhood_complete`), for every bounding box: thin, flat, a single point, shorter than a cell
-(`grid_always_builds`, `flat_axis_single_column`). -/
+(`grid_always_builds`, `flat_axis_single_column`). The front ends are inside the model: `TrackCollection.createSpatialIndex`
+(`collection_create_index`: its flag is the margin), the constructor and `Network.createSpatialIndex` with their default
+margin 0.05 (`default_margin_create_index`), and sequences of `Network.addEdge` calls on an indexed network
+(`network_add_edges_complete`: running edge numbers). -/
 namespace TV.C08
 open TV.Grid
 variable {α : Type} [Field α] [LinearOrder α] [IsStrictOrderedRing α]
@@ -387,6 +390,55 @@ theorem flat_axis_single_column {fl : α → Int} (hf : IsFloor fl) (feats : Lis
     simp only [this, zero_div, hf.zero, oY h]
     rfl
 
+/-- `default_margin_create_index` (argument handling of the front ends that take a margin): `SpatialIndex(collection,
+resolution=None, margin=0.05, verbose=True)` and `Network.createSpatialIndex(resolution=None, margin=0.05,
+verbose=True)` called with the margin left out (`margin = none`) build the index of margin `1/20`, called with a
+margin `m` that of margin `m`; for `m ≥ 0` (the default is) and the default or a positive cell size the call
+returns, so every theorem of this file applies to the index. -/
+theorem default_margin_create_index {fl : α → Int} (hf : IsFloor fl) (feats : List (List (α × α))) (res : Option (α × α))
+    (margin : Option α) (hm : ∀ m, margin = some m → 0 ≤ m) (hres : ∀ r, res = some r → 0 < r.1 ∧ 0 < r.2)
+    (hne : feats.flatten ≠ []) :
+    ∃ m ix, 0 ≤ m ∧ (margin = some m ∨ (margin = none ∧ m = 1 / 20)) ∧
+      createIndexArgs fl feats res margin = build fl feats res m ∧ build fl feats res m = .ok ix := by
+  cases margin with
+  | none =>
+    have h0 : (0 : α) ≤ 1 / 20 := by norm_num
+    obtain ⟨ix, h⟩ := build_returns hf feats res (1 / 20 : α) h0 hres hne
+    exact ⟨1 / 20, ix, h0, Or.inr ⟨rfl, rfl⟩, by simp [createIndexArgs, defaultMargin], h⟩
+  | some m =>
+    obtain ⟨ix, h⟩ := build_returns hf feats res m (hm m rfl) hres hne
+    exact ⟨m, ix, hm m rfl, Or.inl rfl, rfl, h⟩
+
+/-- `network_add_edges_complete`: a sequence of `Network.addEdge` calls on an indexed network of `n` edges (each
+registers the new edge under the running number of edges: `n`, `n + 1`, …), every vertex of every new edge inside the
+extent. All calls return; the index keeps its extent and dimensions and everything registered before; and for the
+`k`-th new edge, every point of every one of its segments lies in a cell that lists `n + k`, a point request there
+returns `n + k`, and a neighbourhood query from a ground distance `d` around any `q` of the extent within `d` of that
+point returns `n + k` — after ALL the additions (a later edge never removes an earlier one). `ix` is any index on
+which nothing raises (`built_index_good`). -/
+theorem network_add_edges_complete {fl : α → Int} (hf : IsFloor fl) (ix : Index α) (hg : Good ix) (n : Nat)
+    (tracks : List (List (α × α))) (hin : ∀ t ∈ tracks, ∀ p ∈ t, getCell ix p ≠ none) :
+    ∃ ix', networkAddEdges fl ix n tracks = .ok ix' ∧ Good ix' ∧ Same ix ix' ∧
+      (∀ i j k, Holds ix.grid i j k → Holds ix'.grid i j k) ∧
+      ∀ (k : Nat) (t : List (α × α)), tracks[k]? = some t → ∀ A B, (A, B) ∈ Consec t → ∀ s : α, 0 ≤ s → s ≤ 1 →
+        (∃ c, getCell ix' (lerp A B s) = some c ∧ Holds ix'.grid (cellOf fl ix' c).1 (cellOf fl ix' c).2 (n + k)) ∧
+        (∃ l, requestPoint fl ix' (lerp A B s) = .ok l ∧ n + k ∈ l) ∧
+        (∀ (q : α × α) (d : α), getCell ix' q ≠ none → 0 ≤ d →
+          (q.1 - (lerp A B s).1) ^ 2 + (q.2 - (lerp A B s).2) ^ 2 ≤ d ^ 2 →
+          ∃ u l, groundDistanceToUnits fl ix' d = .ok u ∧ neighborhoodPoint fl ix' q u = .ok (some l) ∧ n + k ∈ l) := by
+  obtain ⟨ix', h, hg', e, hreg⟩ := addFeatures_inside_complete hf tracks ix n hg hin
+  refine ⟨ix', h, hg', e.1, e.2, ?_⟩
+  intro k t hk A B hAB s hs0 hs1
+  obtain ⟨c, hc, hH⟩ := hreg k t hk A B hAB s hs0 hs1
+  refine ⟨⟨c, hc, hH⟩, ?_, ?_⟩
+  · obtain ⟨l, hl, hkl⟩ := hH
+    refine ⟨l, ?_, hkl⟩
+    unfold requestPoint requestCell
+    simp only [getCellR_of_nz ix' hg'.nz hg'.bounded, hc]
+    exact hl
+  · intro q d hq hd hdist
+    exact neighborhood_finds_registered hf ix' hg' (n + k) _ c hc hH q hq d hd hdist
+
 /-! ### non-vacuity -/
 
 /-- `Rat.floor` (the driver's `math.floor`) satisfies the floor contract -/
@@ -438,6 +490,18 @@ example : (match build Rat.floor [[((0 : ℚ), (0 : ℚ)), (100, 0)], [(0, 100),
                      neighborhoodPoint Rat.floor ix' (50, 50) 2)
        | .error _ => (.error .exit, .error .exit, .error .exit))
     | .error _ => (.error .exit, .error .exit, .error .exit)) = (.ok 2, .ok (some []), .ok (some [2])) := by
+  decide +kernel
+
+/-- the front ends of a network (the hypotheses of `default_margin_create_index` and `network_add_edges_complete` are
+satisfiable): `Network.createSpatialIndex((10, 10))` — margin left out — on the two edges (0,0)-(100,0) and
+(0,100)-(100,100) builds the index of margin 1/20 (extent [-5,105]², 11 x 11 cells of side 10); two `Network.addEdge`
+calls register the new edges under the numbers 2 and 3, and point requests on them find them -/
+example : (match createIndexArgs Rat.floor [[((0 : ℚ), (0 : ℚ)), (100, 0)], [(0, 100), (100, 100)]] (some (10, 10)) none with
+    | .ok ix =>
+      (match networkAddEdges Rat.floor ix 2 [[(58, 58), (62, 62)], [(10, 10), (10, 30)]] with
+       | .ok ix' => (ix'.xmin, ix'.csize, ix'.dX, requestPoint Rat.floor ix' (60, 60), requestPoint Rat.floor ix' (10, 20))
+       | .error _ => (0, 0, 0, .error .exit, .error .exit))
+    | .error _ => (0, 0, 0, .error .exit, .error .exit)) = (-5, 11, 10, .ok [2], .ok [3]) := by
   decide +kernel
 
 /-- regression witness of the defect repaired by ad7c5ee: cells 60 x 1, distance 10 gives 11 units (was 1) -/
